@@ -3,9 +3,9 @@ CONSTANTS
   Procs <- P2
   MaxOps = 2
   Exts <- E2
-  AccMenu <- AccTwo
+  AccMenu <- AccOne
   AliasMenu <- AlNone
-  LimitMenu <- Lim01
+  LimitMenu <- Lim1
   LookupExtra <- NoExtra
   DupLast = FALSE
   Hist = FALSE
